@@ -474,6 +474,23 @@ pub fn gen_frame(t: &mut Tape, kind: usize, class: usize, padlen: usize) -> Vec<
                     b
                 }
                 5 => b"}{".to_vec(),
+                6 if salt % 2 == 0 => {
+                    // a valid document with a byte next to it that JSON does *not* count as
+                    // whitespace although other definitions do (form feed, vertical tab, NEL, a
+                    // no-break space, a byte-order mark, a line separator)
+                    const NEAR: [&[u8]; 7] = [b"\x0c", b"\x0b", b"\xc2\x85", b"\xc2\xa0", b"\xef\xbb\xbf", b"\xe2\x80\xa8", b" \x0c "];
+                    let extra = NEAR[t.draw(NEAR.len())];
+                    let mut b = Vec::new();
+                    let lead = t.draw(3) == 0;
+                    if lead {
+                        b.extend_from_slice(extra);
+                    }
+                    b.extend_from_slice(&base);
+                    if !lead {
+                        b.extend_from_slice(extra);
+                    }
+                    b
+                }
                 _ => {
                     let mut b = base.clone();
                     b.insert(0, b',');
@@ -635,6 +652,12 @@ pub fn corpus() -> Vec<Script> {
         for cut in [in_string, doc.len() - 2, doc.len() - 1] {
             add(vec![(k, doc[..cut].to_vec()), (k, doc[cut..].to_vec()), (k, v(k, 3, 0))]);
         }
+    }
+    // almost-whitespace next to a valid document: a decode error, consuming exactly that frame
+    for k in [0usize, 3] {
+        add(vec![(k, ws(k, "", "\x0c")), (k, v(k, 3, 0))]);
+        add(vec![(k, ws(k, "\u{feff}", "")), (k, v(k, 3, 0))]);
+        add(vec![(k, v(k, 3, 0)), (k, ws(k, "", " \x0b"))]);
     }
     // whitespace padding in every position
     for k in [0usize, 3] {
